@@ -33,6 +33,9 @@ type gor struct {
 	wake      chan struct{}
 	blockedOn string
 	fnName    string
+	vc        vclock          // happens-before clock (race.go)
+	fr        *frame          // frame of the instruction being executed
+	pos       token.Pos       // position of that instruction
 }
 
 type killedPanic struct{}
@@ -44,6 +47,7 @@ type scheduler struct {
 	crash   any  // uncaught panic / engine abort raised on a helper goroutine
 	stuck   bool // a helper found nothing runnable and woke main
 	preempt int  // voluntary preemptions taken on this path
+	race    *raceState
 }
 
 var sched *scheduler
@@ -53,6 +57,10 @@ func resetScheduler() {
 	g := &gor{id: 0, s: s, wake: make(chan struct{}, 1), fnName: "main"}
 	s.gs = []*gor{g}
 	s.cur = g
+	if RaceOn {
+		s.race = newRaceState()
+		raceInitMain(g)
+	}
 	sched = s
 }
 
@@ -201,6 +209,7 @@ func spawn(i *interpreter, pos token.Pos, fn value, args []value) {
 	s := sched
 	g := &gor{id: len(s.gs), s: s, wake: make(chan struct{}, 1), fnName: fnNameOf(fn)}
 	s.gs = append(s.gs, g)
+	raceFork(s.cur, g)
 	if len(s.gs) > 64 {
 		panic(pathAbort{abortBound, "more than 64 goroutines on one path"})
 	}
@@ -395,7 +404,9 @@ func chanSend(c *channel, v value) {
 		block("send on nil channel")
 		panic(deadlockPanic("send on nil channel"))
 	}
+	raceChanSendBefore(c)
 	if trySend(c, v) {
+		raceChanSendAfter(c)
 		return
 	}
 	w := &waiter{g: sched.cur, val: v}
@@ -403,6 +414,7 @@ func chanSend(c *channel, v value) {
 	for !w.done {
 		block("chan send")
 	}
+	raceChanSendAfter(c)
 	if c.closed && !w.ok {
 		panic(targetPanicString("send on closed channel"))
 	}
@@ -414,8 +426,10 @@ func chanRecv(c *channel, elem types.Type) (value, bool) {
 		block("receive from nil channel")
 		panic(deadlockPanic("receive from nil channel"))
 	}
+	raceChanRecvBefore(c)
 	v, ok, done := tryRecv(c)
 	if done {
+		raceChanRecvAfter(c)
 		if !ok {
 			v = zero(elem)
 		}
@@ -426,6 +440,7 @@ func chanRecv(c *channel, elem types.Type) (value, bool) {
 	for !w.done {
 		block("chan receive")
 	}
+	raceChanRecvAfter(c)
 	if !w.ok {
 		return zero(elem), false
 	}
@@ -439,6 +454,7 @@ func chanClose(c *channel) {
 	if c.closed {
 		panic(targetPanicString("close of closed channel"))
 	}
+	raceChanCloseBefore(c)
 	c.closed = true
 	for {
 		r := popLive(&c.recvq)
@@ -472,6 +488,18 @@ func doSelect(fr *frame, instr *ssa.Select) value {
 		cases[i] = scase{c: c, send: st.Dir == types.SendOnly}
 		if st.Send != nil {
 			cases[i].val = fr.get(st.Send)
+		}
+	}
+	if RaceOn {
+		for _, sc := range cases {
+			if sc.c == nil {
+				continue
+			}
+			if sc.send {
+				raceChanSendBefore(sc.c)
+			} else {
+				raceChanRecvBefore(sc.c)
+			}
 		}
 	}
 	chosen := -1
@@ -527,6 +555,13 @@ func doSelect(fr *frame, instr *ssa.Select) value {
 			panic(targetPanicString("send on closed channel"))
 		}
 	}
+	if RaceOn && chosen >= 0 {
+		if cases[chosen].send {
+			raceChanSendAfter(cases[chosen].c)
+		} else {
+			raceChanRecvAfter(cases[chosen].c)
+		}
+	}
 	r := tuple{chosen, rok}
 	for i, st := range instr.States {
 		if st.Dir == types.RecvOnly {
@@ -570,6 +605,7 @@ func mutexLock(addr *value) {
 		block("mutex")
 	}
 	m.locked = true
+	raceAcquire(addr)
 }
 
 func mutexUnlock(addr *value) {
@@ -577,6 +613,7 @@ func mutexUnlock(addr *value) {
 	if !m.locked {
 		panic(runtimePanic("sync: unlock of unlocked mutex"))
 	}
+	raceRelease(addr)
 	m.locked = false
 	for _, g := range m.waiters {
 		makeRunnable(g)
